@@ -22,7 +22,7 @@ type Options struct {
 	// FrontierDepth > 0: do not expand decision points at this depth; hand their prefix to OnFrontier instead
 	FrontierDepth int
 	OnFrontier    func(prefix []PrefixStep)
-	Record      bool                   // keep traces for every execution (slow; replay / samples)
+	Record        bool // keep traces for every execution (slow; replay / samples)
 }
 
 // PrefixStep is one pinned decision with its preemption cost.
@@ -114,6 +114,10 @@ type controller struct {
 	fixed        []Choice // replay mode: follow exactly this list, then first option
 	replay       bool
 	optbuf       []option
+	shadow       map[uintptr]*cell
+	raceSigs     map[string]bool
+	netReg       map[string]any
+	keep         []any
 	skipped      int64 // options dropped by the state cache without being executed
 	sleepSkipped int64 // options not offered because they were asleep
 }
@@ -409,8 +413,16 @@ func (c *controller) pickDeterministic(w *World, prev *G) (*G, int32) {
 }
 
 func (c *controller) run(body func()) *Execution {
+	// the maps of the previous execution are reused (cleared): allocating them afresh for every execution
+	// was a large part of the allocation volume
+	if c.shadow == nil {
+		c.shadow, c.raceSigs, c.netReg = map[uintptr]*cell{}, map[string]bool{}, map[string]any{}
+	}
+	clear(c.shadow)
+	clear(c.raceSigs)
+	clear(c.netReg)
 	w := &World{horizon: c.opts.Horizon, endC: make(chan struct{}), ctl: c,
-		shadow: map[uintptr]*cell{}, raceSigs: map[string]bool{}, netReg: map[string]any{}, record: c.opts.Record, NetPort: 40000}
+		shadow: c.shadow, raceSigs: c.raceSigs, netReg: c.netReg, record: c.opts.Record, NetPort: 40000, keep: c.keep[:0]}
 	if w.horizon == 0 {
 		w.horizon = 5000
 	}
@@ -431,6 +443,10 @@ func (c *controller) run(body func()) *Execution {
 	}
 	w.live.Wait()
 	cur.Store(nil)
+	for i := range w.keep {
+		w.keep[i] = nil
+	}
+	c.keep = w.keep[:0]
 	e := &Execution{Outcome: w.outcome, Steps: w.steps, Goroutines: len(w.gs), Preempts: w.preempts, Choices: w.choices,
 		TraceKey: w.key, Races: w.Races, Accesses: w.accesses, Panic: w.panicVal, PanicG: w.panicG, PanicStack: w.panicStk,
 		Broken: w.broken, Trace: w.Trace, Notes: w.Notes, Objects: w.nobj}
